@@ -15,6 +15,16 @@ CLAIMED = {
    note="Trusted: Coq kernel + VM; no axioms. Modelled, not verified: that each renderer is a straight sequence of Write calls which stops at the first error it checks (text/template's Execute included) - validated by the per-run enumeration on the tables run (8 fixed shapes covering every write site + random tables, 15 targets). Writers that return n < len(p) with a nil error violate io.Writer and are out of scope.",
    technique="Coq proof by induction over write lists for all fault scripts + exhaustive fault enumeration (every write index x 4 modes) against the real renderers, judged by vm_compute",
    ref="6 (C15)"),
+ "C10": dict(
+   text="Machine-checked proof (Coq 8.16.1, closed under the global context) over a model of the wrapper layer (Model/Wrap.v): for every history of building, wrapping (any kinds, any nesting, any creation path: X.New() = New + Wrap, auto = dispatch + Wrap) and rendering, a render through a wrapper of kind k yields exactly format k's output for the current view, hence any two paths to the same content render identically; proved by induction over the history with the invariant that a measuring format's callback stays registered once its Wrap has run, for every choice of renderer bodies (instantiated with the CSV model). The tie to the code: each run builds the same table along 14 creation paths x nestings x 6 entry points per format and Coq requires all outputs byte-identical to the reference (and, for CSV, to the model).",
+   note="Trusted: Coq kernel + VM; no axioms. Modelled, not verified: that a Wrap's only effect on the core table is registering its measuring callback and that a render's output depends only on the view and on those measurements being fresh (the renderer bodies are parameters of the theorem); Go method promotion through the embedded Table interface. Tied to the code only on the (table, format, path) combinations each run executes.",
+   technique="Coq proof by induction over build/wrap/render histories (registration invariant) + differential check of all creation paths x nestings x entry points, judged by vm_compute",
+   ref="6 (C10)"),
+ "C14": dict(
+   text="Machine-checked proof (Coq 8.16.1, closed under the global context) over the same wrapper/render-pass model: any sequence of wraps and renders, of any length and order of formats and decorations, leaves the caller-observable state (view + user-visible rest) unchanged, and every format renders the same bytes after it as before it - a render pass only refreshes private measurements and a Wrap only appends a callback; by induction over the sequence, for all renderer bodies. The tie to the code: render sequences (all of length <= 2 over 9 slots exhaustively, random up to 12) are run on real tables; Coq compares every output with the first of its slot and a full serialised snapshot (counts, texts, locations, sizes, CellAt, user properties of every owner, errors) before and after, and the CSV outputs with the model.",
+   note="Trusted: Coq kernel + VM; no axioms. Modelled, not verified: that render passes write only the three private property keys and that wrappers cache nothing but the parsed HTML template; user callbacks are absent (as the property says). Tied to the code only on the sequences each run executes.",
+   technique="Coq proof by induction over render sequences (observable-state preservation) + differential check of repeated renders and before/after snapshots, judged by vm_compute",
+   ref="6 (C14)"),
 }
 
 def main():
